@@ -22,6 +22,10 @@ pub struct ReplayFile {
     pub minimised_to: serde_json::Value,
     pub event_log_hash: u64,
     pub case: Case,
+    /// the violation did not show in every fresh process (the code under test depends on a source the simulator does not
+    /// own, e.g. a randomly keyed HashMap that is iterated): replay retries a few times
+    #[serde(default)]
+    pub nondeterministic: bool,
 }
 
 pub enum ChildRes {
@@ -170,6 +174,7 @@ pub fn minimise_and_write(bin: &str, case: &mut Case, viol: &Violation, prop: &s
                     minimised_to: serde_json::json!({"note": "not minimised: free-running fallback (the simulated schedule stalled on a lock inside the code under test)"}),
                     event_log_hash: 0,
                     case: case.clone(),
+                    nondeterministic: true,
                 };
                 std::fs::write(path, serde_json::to_string_pretty(&rf).unwrap()).map_err(|e| e.to_string())?;
                 return Ok(());
@@ -179,8 +184,36 @@ pub fn minimise_and_write(bin: &str, case: &mut Case, viol: &Violation, prop: &s
     }
     let first = run_child(bin, case, tmp, 120);
     let Some(detail0) = has_class(prop, &first, &class) else {
-        // still write what we have (unminimised), so that the finding is not lost, but say so
-        return Err(format!("class {} not shown by the re-run (got {:?})", class, classes(prop, &first).iter().map(|c| c.0.clone()).collect::<Vec<_>>()));
+        // Not shown by the first fresh process. Either the harness is at fault, or the code under test consults a source
+        // the simulator does not own (per-process hash keys, addresses): a few more fresh processes decide. If some of them
+        // show the class, the violation is real but not a pure function of the seed; it is reported unminimised and marked.
+        let mut shown = 0;
+        let mut detail = String::new();
+        for _ in 0..8 {
+            let r = run_child(bin, case, tmp, 120);
+            if let Some(d) = has_class(prop, &r, &class) {
+                shown += 1;
+                detail = d;
+            }
+        }
+        if shown == 0 {
+            return Err(format!("class {} not shown by the re-run (got {:?})", class, classes(prop, &first).iter().map(|c| c.0.clone()).collect::<Vec<_>>()));
+        }
+        let rf = ReplayFile {
+            property: prop.to_string(),
+            engine: "native".into(),
+            flavour: label.to_string(),
+            verif_seed: seed,
+            run_index: idx,
+            violation: Violation { class: class.clone(), detail: format!("[shown by {} of 9 fresh processes: depends on a source of nondeterminism inside the code under test] {}", shown, detail), thread: viol.thread, op: viol.op },
+            minimised_from: from.clone(),
+            minimised_to: serde_json::json!({"note": "not minimised: the violation is not a pure function of the seed"}),
+            event_log_hash: 0,
+            case: case.clone(),
+            nondeterministic: true,
+        };
+        std::fs::write(path, serde_json::to_string_pretty(&rf).unwrap()).map_err(|e| e.to_string())?;
+        return Ok(());
     };
     let mut detail = detail0;
     let mut log_hash = 0u64;
@@ -348,6 +381,7 @@ pub fn minimise_and_write(bin: &str, case: &mut Case, viol: &Violation, prop: &s
         minimised_to: serde_json::json!({"threads": case.threads.iter().filter(|t| !t.is_empty()).count(), "ops": case.op_count(), "switches": switches, "child_runs": evals}),
         event_log_hash: log_hash,
         case: case.clone(),
+        nondeterministic: false,
     };
     std::fs::write(path, serde_json::to_string_pretty(&rf).unwrap()).map_err(|e| e.to_string())?;
     Ok(())
@@ -372,9 +406,10 @@ pub fn replay(path: &str) -> i32 {
     let me = std::env::current_exe().unwrap().to_string_lossy().to_string();
     let tmp = format!("{}/target/tmp/replay-{}", crate::home(), std::process::id());
     let mut r = run_child(&me, &rf.case, &tmp, 600);
-    if rf.case.free_run {
-        // the OS decides the interleaving of a free-running fallback case: a few tries
-        for _ in 0..9 {
+    if rf.case.free_run || rf.nondeterministic {
+        // the OS decides the interleaving of a free-running fallback case, and a case marked nondeterministic depends on
+        // per-process state inside the code under test: a few tries
+        for _ in 0..15 {
             if classes(&rf.property, &r).iter().any(|(c, _)| *c == rf.violation.class) {
                 break;
             }
